@@ -280,12 +280,24 @@ impl Scheduler {
                 // for each pair (from -> to) inside the job graph, connect all the corresponding
                 // jobs of the execution graph
                 for &from_coord in from.replicas.values().flatten() {
-                    let to: Vec<_> = to.replicas.values().flatten().collect();
+                    let mut to: Vec<_> = to.replicas.values().flatten().collect();
+                    to.sort();
+                    let has_same = to.iter().any(|t| {
+                        t.host_id == from_coord.host_id && t.replica_id == from_coord.replica_id
+                    });
+                    // a forward connection whose consumer has no replica with the same index:
+                    // pick a deterministic one so that the producer is not left unconnected
+                    let fallback = if !has_same && !fragile && to.len() > 1 {
+                        Some(*to[from.global_ids[&from_coord] as usize % to.len()])
+                    } else {
+                        None
+                    };
                     for &to_coord in &to {
                         if from.is_only_one_strategy || fragile {
                             if to.len() == 1
                                 || (to_coord.host_id == from_coord.host_id
                                     && to_coord.replica_id == from_coord.replica_id)
+                                || Some(*to_coord) == fallback
                             {
                                 self.network.connect(from_coord, *to_coord, typ, fragile);
                             }
